@@ -16,6 +16,7 @@ def run(ctx):
     _p1h(ctx)
     _tagconst(ctx)
     _p9g(ctx)
+    _p15m(ctx)
     _p11g(ctx)
     _p10g(ctx)
     _w10c(ctx)
@@ -481,3 +482,145 @@ def _s3i(ctx):
         ctx.add('S3', 'T-SIB', name, ok, '%s::next uses %s (non-blocking iterators never block, blocking ones end only at disconnect)' % (ty, kind) if ok else
                 '%s::next calls %s but this iterator kind must use `%s`' % (ty, calls, kind), sub='iter-kind')
     ctx.floor('S3', n, 12, 'iterator impls')
+
+
+# ----------------------------------------------------------------------------------------
+# P15m: the index arithmetic helpers keep their shape (operator family and which inputs flow where)
+# ----------------------------------------------------------------------------------------
+
+def _norm(g, e):
+    e = g.strip(e)
+    while True:
+        if e[0] == 'fld' and e[2] == '0' and g.strip(e[1])[0] == 'bin' and g.strip(e[1])[1].endswith('WithOverflow'):
+            b = g.strip(e[1])
+            e = ('bin', b[1].replace('WithOverflow', ''), b[2], b[3])
+            continue
+        if e[0] == 'cast':
+            e = e[2]
+            continue
+        if e[0] == 'deref' or (e[0] == 'ref'):
+            # places are compared by field path
+            return e
+        return e
+
+
+def _is(g, e, what, arg=None):
+    """tiny structural predicates on normalised expressions"""
+    e = _norm(g, e)
+    if what == 'param':
+        return e == ('param', g.root_inst, arg)
+    if what == 'const':
+        return e[0] == 'c' and str(e[1]) == str(arg)
+    if what == 'field':
+        return e[0] == 'fld' and e[2].endswith(arg) or (e[0] == 'deref' and _is(g, e[1], 'field', arg))
+    return False
+
+
+def _binop(g, e, ops, commutative=False):
+    """-> (a, b) if e is `a op b` with op in ops (bin or wrapping_* / checked call), else None"""
+    e = _norm(g, e)
+    if e[0] == 'bin' and e[1].replace('Unchecked', '') in ops:
+        return (e[2], e[3])
+    if e[0] == 'call':
+        nm = g.call_name(e[1]) or ''
+        for op in ops:
+            if re.search(r'(wrapping|unchecked|saturating)?_?%s$' % op.lower(), nm.split('::')[-1]):
+                a = g.call_args(e[1])
+                if len(a) == 2:
+                    return (a[0], a[1])
+    return None
+
+
+def _fld_of(g, e, suffix):
+    e = _norm(g, e)
+    for s_ in g.walk(e):
+        if s_[0] == 'fld' and s_[2].endswith(suffix):
+            return True
+    return False
+
+
+def _p15m(ctx):
+    F = ctx.F
+    gr = ctx.graph(ctx.fn1(r'^countedindex::rm_tag$'))
+    rr = gr.strip(gr.ev_local(gr.root_inst, 0))
+    tagm = _const_of(gr, rr[3]) if rr[0] == 'bin' else None
+
+    def rule(fn, ok, good, bad, sub):
+        ctx.add('P15m', 'T-FLOW', fn, ok, good if ok else bad, sub=sub)
+
+    for nm, vp in ((r'^countedindex::CountedIndex::new$', None), (r'^countedindex::CountedIndex::from_usize$', 1)):
+        fn = ctx.fn1(nm)
+        g = ctx.graph(fn)
+        r = g.strip(g.ev_local(g.root_inst, 0))
+        ok = False
+        if r[0] == 'agg' and 'mask' in r[3]:
+            wrap_param = g.insts[g.root_inst].body['arg_count']
+            b = _binop(g, r[4][r[3].index('mask')], {'Sub'})
+            ok = b is not None and _is(g, b[0], 'param', wrap_param) and _is(g, b[1], 'const', 1)
+            if vp is not None:
+                v = g.strip(r[4][r[3].index('val')])
+                ok = ok and v[0] == 'call' and _is(g, g.call_args(v[1])[0], 'param', vp)
+        rule(fn, ok, 'index mask = wrap - 1 (and the initial count is the given one)', '%s: mask is not wrap - 1 / initial count not the given value' % short_fn(fn), 'mask')
+    fn = ctx.fn1(r'^countedindex::CountedIndex::wrap_at$')
+    g = ctx.graph(fn)
+    b = _binop(g, g.ev_local(g.root_inst, 0), {'Add'})
+    ok = b is not None and ((_fld_of(g, b[0], 'CountedIndex.mask') and _is(g, b[1], 'const', 1)) or (_fld_of(g, b[1], 'CountedIndex.mask') and _is(g, b[0], 'const', 1)))
+    rule(fn, ok, 'wrap_at = mask + 1', 'wrap_at is not mask + 1', 'wrap_at')
+    fn = ctx.fn1(r'^countedindex::Transaction::<.*>::get$')
+    g = ctx.graph(fn)
+    r = g.strip(g.ev_local(g.root_inst, 0))
+    ok = False
+    if r[0] == 'agg' and len(r[4]) == 2:
+        b = _binop(g, r[4][0], {'BitAnd'})
+        ok = b is not None and ((_fld_of(g, b[0], 'loaded_vals') and _fld_of(g, b[1], 'Transaction.mask')) or (_fld_of(g, b[1], 'loaded_vals') and _fld_of(g, b[0], 'Transaction.mask'))) \
+            and _fld_of(g, r[4][1], 'loaded_vals') and _binop(g, r[4][1], {'BitAnd', 'Add', 'Sub'}) is None
+    rule(fn, ok, 'slot index = count & mask; tag = the unmodified count', 'Transaction::get does not return (count & mask, count)', 'get')
+    fn = ctx.fn1(r'^countedindex::CountedIndex::get_previous$')
+    g = ctx.graph(fn)
+    b = _binop(g, g.ev_local(g.root_inst, 0), {'Sub'})
+    ok = b is not None and _is(g, b[0], 'param', 1) and _is(g, b[1], 'param', 2)
+    rule(fn, ok, 'get_previous = start - by', 'get_previous is not start - by', 'get_previous')
+    fn = ctx.fn1(r'^countedindex::past$')
+    g = ctx.graph(fn)
+    r = g.strip(g.ev_local(g.root_inst, 0))
+    ok = False
+    if r[0] == 'agg' and len(r[4]) == 2:
+        d = _binop(g, r[4][0], {'Sub'})
+        c = _norm(g, r[4][1])
+        ok = d is not None and _is(g, d[0], 'param', 1) and _is(g, d[1], 'param', 2) and c[0] == 'bin' and c[1] == 'Gt' and \
+            _binop(g, c[2], {'Sub'}) is not None and _norm(g, c[3])[0] == 'c'
+    rule(fn, ok, 'past(check, seq) = (check - seq, check - seq > MAX_WRAP)', 'past() is not (check - seq, check - seq > MAX_WRAP)', 'past')
+    for nm in (r'^countedindex::Transaction::<.*>::commit_direct$', r'^countedindex::Transaction::<.*>::commit$'):
+        fn = ctx.fn1(nm)
+        g = ctx.graph(fn)
+        for a in g.x.atoms.values():
+            if a.op not in WRITE_OPS:
+                continue
+            args = g.call_args(a.nid)
+            newv = args[2] if a.op in CAS_OPS else args[1]
+            b = _binop(g, newv, {'BitAnd'})
+            ok = False
+            if b is not None:
+                for (p_, q_) in ((b[0], b[1]), (b[1], b[0])):
+                    if _const_of(g, q_) == tagm:
+                        s_ = _binop(g, p_, {'Add'})
+                        ok = s_ is not None and _fld_of(g, s_[0], 'loaded_vals') and _is(g, s_[1], 'param', 2)
+            if a.op in CAS_OPS:
+                ok = ok and _fld_of(g, args[1], 'loaded_vals') and _binop(g, args[1], {'BitAnd', 'Add', 'Sub'}) is None
+            rule(fn, ok, 'new count = (observed count + by) & count mask' + (' ; CAS expects the observed count' if a.op in CAS_OPS else ''),
+                 '%s does not store (observed count + by) & count mask' % short_fn(fn), short_fn(fn).split('::')[-1])
+    # the refreshed tail = head observation - scan result
+    for nm in (r'^multiqueue::MultiQueue::<.*>::reload_tail_single$', r'^multiqueue::MultiQueue::<.*>::reload_tail_multi$'):
+        fn = ctx.fn1(nm)
+        g = ctx.graph(fn, 'BCast')
+        x = g.x
+        ws = [a for a in x.atoms_on('MultiQueue.tail_cache') if a.op in WRITE_OPS]
+        ok = bool(ws)
+        for a in ws:
+            args = g.call_args(a.nid)
+            newv = args[2] if a.op in CAS_OPS else args[1]
+            b = _binop(g, newv, {'Sub'})
+            scan = {s_.nid for s_ in x.loads_in(newv) if s_.on('ReaderPos.pos_data')}
+            ok = ok and b is not None and _is(g, b[0], 'param', g.insts[g.root_inst].body['arg_count']) and bool(scan) and \
+                bool({s_.nid for s_ in x.loads_in(b[1])} & scan) and not x.loads_in(b[0])
+        rule(fn, ok, 'refreshed tail = observed head count - largest stream distance', '%s does not store (observed head - scan result) into the tail cache' % short_fn(fn), short_fn(fn).split('::')[-1])
